@@ -5,7 +5,7 @@
    Partial: positive semi-definiteness of the five stationary kernels (Bochner's theorem) is not
    provable with the installed libraries; it is tested numerically as support only. *)
 From Coq Require Import Reals List ZArith Lra.
-From MellonV Require Import ALists AKernels AKExpr ACovFunc AListsFacts ADocumented ADistThm AKernelsThm APsdThm ASchurBridge APsdLimit ABochnerThm ABochnerFinal ARatQuadPsd.
+From MellonV Require Import ALists AKernels AKExpr ACovFunc AListsFacts ADocumented ADistThm AKernelsThm APsdThm ASchurBridge APsdLimit ABochnerThm ABochnerFinal ARatQuadPsd AKPos APowPsd.
 Import ListNotations.
 Open Scope R_scope.
 
@@ -207,6 +207,39 @@ Print Assumptions C05_ratquad_integer_alpha_gram_psd.
 Theorem C05_keval_psd_elementary : forall e, psd_shape e -> elementary_only e -> psd (keval e).
 Proof. exact keval_psd_elementary. Qed.
 Print Assumptions C05_keval_psd_elementary.
+
+(* Pow nodes (mellon.base_cov.Pow: left.k(x, y) ** right) enter the closure: with a positive integer exponent over an
+   entrywise positive operand - decided syntactically by kpos: ExpQuad / Exponential / RatQuad leaves, sums, products,
+   + c (c >= 0), * c (c > 0), Pow - the generated Pow_k p lk = Rpower lk p is lk ^ p, an iterated Schur product
+   (thm/APowPsd.v).  The node alone, for ANY psd operand that is entrywise positive: *)
+Theorem C05_pow_node_psd : forall l n ad, psd (keval l) -> (forall x y, 0 < keval l x y) ->
+  psd (keval (KPow l (INR (S n)) ad)).
+Proof. exact psd_pow_node. Qed.
+Print Assumptions C05_pow_node_psd.
+
+Theorem C05_kpos_entrywise_positive : forall e, kpos e -> forall x y, 0 < keval e x y.
+Proof. exact kpos_sound. Qed.
+Print Assumptions C05_kpos_entrywise_positive.
+
+(* ... and every expression tree over Linear, ExpQuad and integer-alpha RatQuad leaves with such Pow nodes at any depth:
+   no hypothesis left; the Pow-free theorem above is the special case (psd_shape_pow_of_shape) *)
+Theorem C05_keval_psd_elementary_pow : forall e, psd_shape_pow e -> elementary_pow_only e -> psd (keval e).
+Proof. exact keval_psd_elementary_pow. Qed.
+Print Assumptions C05_keval_psd_elementary_pow.
+
+(* the same closure over all six kernels, with the base-profile hypothesis of C05_keval_psd_bochner_only_partial as the only one
+   left (kpos covers Matern32/52 leaves with ls > 0 as well) *)
+Theorem C05_keval_psd_pow_bochner_only_partial :
+  (forall b ls, base_ok b ls -> psd (base_k b ls)) ->                                   (* kernel_psd: assumed *)
+  forall e, psd_shape_pow e -> psd (keval e).
+Proof. exact keval_psd_pow_bochner_only. Qed.
+Print Assumptions C05_keval_psd_pow_bochner_only_partial.
+
+Example C05_pow_nonvacuous :
+  let e := KAdd (KPow (KMul (KBase (BRatQuad 1) 2 DNone) (KAddC (KBase BExpQuad 3 DNone) 1 DNone) DNone) 3 (DInt 0%Z))
+                (KBase BLinear (1 / 2) DNone) DNone in
+  psd_shape_pow e /\ elementary_pow_only e.
+Proof. exact elementary_pow_example. Qed.
 
 (* ---- non-vacuity of the hypotheses used above *)
 Example C05_nonvacuous :
